@@ -121,6 +121,70 @@ def special_request(rng, tr):
     return ub, vals, tuple(float(x) for x in rng.choice(HKLS)), rng.choice([1.0, 0.5, 2.0])
 
 
+ALIGNED_SETUPS = [
+    ("cubicI-nz", dict(lattice=(1.0,), rotvec=(0, 0, 0), n_hkl=None, n_phi=(0, 0, 1), surf_nphi=(0, 0, 1), surf_nhkl=None)),
+    ("cubicI-nx", dict(lattice=(2.0,), rotvec=(0, 0, 0), n_hkl=(1, 0, 0), n_phi=None, surf_nphi=(0, 0, 1), surf_nhkl=None)),
+    ("ortho-ny", dict(lattice=(4.0, 5.0, 6.0), rotvec=(0, 0, 0), n_hkl=(0, 1, 0), n_phi=None, surf_nphi=None, surf_nhkl=(0, 0, 1))),
+    ("ortho-rot90", dict(lattice=(4.0, 5.0, 6.0), rotvec=(math.pi / 2, 0, 0), n_hkl=(0, 0, 1), n_phi=None, surf_nphi=(0, 1, 0), surf_nhkl=None)),
+    ("triclinic", dict(lattice=(4.1, 5.2, 6.3, 80, 95, 100), rotvec=(0.3, -0.5, 0.7), n_hkl=(1, 0.2, 0.1), n_phi=None, surf_nphi=None, surf_nhkl=(0.1, 0.2, 1))),
+]
+ALIGNED_HKLS = [(0, 0, 0), (1, 0, 0), (0, 1, 0), (0, 0, 1), (1, 1, 0), (1, 0, 1), (0, 1, 1), (1, 1, 1), (1, 0.5, 1), (-1, 0, 0), (0, 0, -1), (0.3, 0.2, 0.7)]
+ALIGNED_VALUES = [0.0, 0.0, 0.0, 90.0, -90.0, 180.0, 270.0, 45.0, 20.0]
+
+
+def aligned_requests(rng, per_mode):
+    """structured requests on aligned set-ups (U = 1 or a quarter turn, reference / surface along axes, axis and in-plane hkl) with the constraint values
+    drawn mostly from {0, +-90, 180, 270}: the region where the solver's degenerate branches, sign choices and `is_small` shortcuts live.
+    -> list of (ub, vals, hkl, wl, tag)"""
+    out = []
+    ubs = {}
+    for tr in modes():
+        for _ in range(per_mode):
+            name, kw = rng.choice(ALIGNED_SETUPS)
+            if name not in ubs:
+                ubs[name] = mk_ub(**kw)
+            kind = rng.choice(["zeros", "zeros", "special", "special", "vertical"])
+            vals = {}
+            for nm in tr:
+                if nm in VOID:
+                    vals[nm] = True
+                elif kind == "zeros":
+                    vals[nm] = 0.0
+                elif kind == "vertical" and nm in ("qaz", "naz"):
+                    vals[nm] = rng.choice([90.0, -90.0, 270.0])
+                elif kind == "vertical":
+                    vals[nm] = rng.choice([0.0, 0.0, 20.0, 180.0])
+                else:
+                    vals[nm] = rng.choice(ALIGNED_VALUES)
+            out.append((ubs[name], vals, tuple(float(x) for x in rng.choice(ALIGNED_HKLS)), rng.choice([1.0, 1.0, 0.5]), "aligned:" + name + ":" + kind))
+    return out
+
+
+def degenerate_requests(rng, n):
+    """the two degenerate 4-circle families (vertical: chi = 0 / 180 with phi || eta; horizontal: chi = +-90 with phi || mu) on an aligned cubic set-up"""
+    out = []
+    for _ in range(n):
+        a = rng.choice([1.0, 2.0, 3.3])
+        ub = mk_ub(lattice=(a,), rotvec=(0, 0, 0), n_hkl=None, n_phi=(0, 0, 1), surf_nphi=(0, 0, 1), surf_nhkl=None)
+        h, k = rng.uniform(0.1, 0.6), rng.uniform(0.1, 0.6)
+        x = rng.choice([0.0, 20.0, rng.uniform(-60, 60), 0.0])
+        fam = rng.choice(["v-eta", "v-free", "h-mu", "h-free", "v-delta", "h-nu"])
+        if fam == "v-eta":      # chi=0, mu=nu=0 family, eta constrained
+            out.append((ub, {"qaz": 90.0, "mu": 0.0, "eta": x}, (h, k, 0.0), 1.0, fam))
+        elif fam == "v-free":   # eta free: the tidy-up is allowed to choose it
+            out.append((ub, {"qaz": 90.0, "mu": 0.0, "a_eq_b": True}, (h, k, 0.0), 1.0, fam))
+        elif fam == "h-mu":     # chi=90, eta=delta=0 family, mu constrained
+            out.append((ub, {"qaz": 0.0, "eta": 0.0, "mu": x}, (h, k, 0.0), 1.0, fam))
+        elif fam == "h-free":
+            out.append((ub, {"qaz": 0.0, "eta": 0.0, "a_eq_b": True}, (h, k, 0.0), 1.0, fam))
+        elif fam == "v-delta":
+            out.append((ub, {"nu": 0.0, "mu": 0.0, "eta": x}, (h, k, 0.0), 1.0, fam))
+        else:
+            out.append((ub, {"delta": 0.0, "eta": 0.0, "mu": x}, (h, k, 0.0), 1.0, fam))
+    return out
+
+
+
 def signature(res):
     return (res[0], len(res[1]) if res[0] == "ok" else None)
 
